@@ -14,7 +14,7 @@ import numpy as np
 from vlib import core, coqlit as L
 
 HEADER = """From Coq Require Import ZArith List Bool PrimFloat.
-From SV Require Import lib.FloatRun model.Trap run.RunC20.
+From SV Require Import lib.FloatRun model.Trap model.Spokes run.RunC20.
 Import ListNotations.
 Local Open Scope Z_scope.
 """
@@ -208,6 +208,8 @@ def coq_expr(c, w, r, rng):
 def spokes_case(rng):
     ns = rng.randint(1, 6)
     scale = logu(rng, 0.01, 1.0)
+    if rng.random() < 0.15:
+        scale = logu(rng, 3.0, 80.0)       # increments whose blips may be longer than the slice-select lobe (outside the domain)
     k = [[rng.uniform(-1, 1) * scale, rng.uniform(-1, 1) * scale] for _ in range(ns)]
     if rng.random() < 0.4:
         # spoke locations on a regular 1/fov grid (the usual design): increments on the two axes then tie in magnitude,
@@ -236,19 +238,28 @@ def spokes_oracle(tg, c):
     area = c["tbw"] / (c["sl_thick"] / 10) / GAMMA
     sub, _ = tg.min_trap_grad(area, gmax, dgdt, dt)
     nsub = sub.shape[1]
+    kk, k = spokes_inputs(c)
     inc = np.diff(np.vstack((k, np.zeros((1, 2)))), axis=0)            # requested k-space increments
-    for v in np.abs(inc).ravel():
-        if v > 0 and tg.trap_grad(v / GAMMA, gmax, dgdt, dt)[0].shape[1] > nsub:
-            return False, []                                           # blip longer than the slice-select lobe: outside the designer's domain
-    kk = k
-    if c.get("kdtype") == "int":          # integer grid of locations handed over as an integer array
-        kk = np.rint(k).astype(np.int64)
-        k = kk.astype(float)
-        inc = np.diff(np.vstack((k, np.zeros((1, 2)))), axis=0)
-    elif c.get("kdtype") == "float32":
-        kk = k.astype(np.float32)
-        k = kk.astype(float)
-        inc = np.diff(np.vstack((k, np.zeros((1, 2)))), axis=0)
+    fits = all(tg.trap_grad(v / GAMMA, gmax, dgdt, dt)[0].shape[1] <= nsub for v in np.abs(inc).ravel() if v / GAMMA > 0)
+    if not fits:
+        # a blip longer than the slice-select lobe.  The code either raises (numpy.vstack on unequal lengths: a rejection) or lets the
+        # blip eat into the previous spoke; the assembled gradients must then STILL respect the limits and bring k-space back to 0
+        # (known finding C20:spokes_grad:blip-longer-than-lobe when they do not)
+        try:
+            g = np.asarray(tg.spokes_grad(kk, c["tbw"], c["sl_thick"], gmax, dgdt, dt))
+        except ValueError:
+            return False, []
+        bad = []
+        for ax in range(3):
+            if np.max(np.abs(g[ax])) > gmax * (1 + TOL):
+                bad.append(("blip-longer-than-lobe axis%d max<=gmax" % ax, gmax, float(np.max(np.abs(g[ax])))))
+            if np.max(np.abs(np.diff(g[ax]))) > dgdt * dt * (1 + TOL):
+                bad.append(("blip-longer-than-lobe axis%d slew" % ax, dgdt * dt, float(np.max(np.abs(np.diff(g[ax]))))))
+        for ax in range(2):
+            moved = math.fsum(g[ax].tolist()) * dt * GAMMA
+            if abs(moved + k[0, ax]) > 1e-9 * max(float(np.sum(np.abs(inc[:, ax]))), 1e-12):
+                bad.append(("blip-longer-than-lobe axis%d total k-space displacement" % ax, float(-k[0, ax]), moved))
+        return False, bad
     g = np.asarray(tg.spokes_grad(kk, c["tbw"], c["sl_thick"], gmax, dgdt, dt))
     bad = []
     if g.ndim != 2 or g.shape[0] != 3:
@@ -270,6 +281,70 @@ def spokes_oracle(tg, c):
     if abs(zref * dt) > TOL * area * k.shape[0] + 0:     # total gz area: sum of alternating lobes minus the refocusing lobe
         pass
     return True, bad
+
+
+def spokes_inputs(c):
+    """the array handed to spokes_grad and the float64 locations it stands for"""
+    k = np.array(c["k"], dtype=float)
+    kk = k
+    if c.get("kdtype") == "int":
+        kk = np.rint(k).astype(np.int64); k = kk.astype(float)
+    elif c.get("kdtype") == "float32":
+        kk = k.astype(np.float32); k = kk.astype(float)
+    return kk, k
+
+
+def spokes_coq_expr(tg, c, rng):
+    """Coq boolean: the float model of spokes_grad (coq/model/Spokes.v) reproduces what the implementation returned —
+    or, when the implementation raised, is outside its domain with unequal axis lengths.  None = rounding tie (not compared)."""
+    kk, k = spokes_inputs(c)
+    gmax, dgdt, dt = c["gmax"], c["dgdt"], c["dt"]
+    par = "%s %s %s %s %s %s %s" % (L.flist(k[:, 0]), L.flist(k[:, 1]), L.flt(float(c["tbw"])), L.flt(c["sl_thick"]),
+                                    L.flt(gmax), L.flt(dgdt), L.flt(dt))
+    try:
+        g = np.asarray(tg.spokes_grad(kk, c["tbw"], c["sl_thick"], gmax, dgdt, dt), dtype=float)
+    except ValueError:
+        return "chk_spokes_raised " + par, "raised"
+    area = c["tbw"] / (c["sl_thick"] / 10) / GAMMA
+    sub, _ = tg.min_trap_grad(area, gmax, dgdt, dt)
+    nsub, n = sub.shape[1], k.shape[0]
+    # numpy sums pairwise, the model left to right: if the two sums give refocusing lobes of different length the case sits on a
+    # rounding tie of a ceil and is not compared
+    s_lr = 0.0
+    for v in sub[0].tolist():
+        s_lr += v
+    if tg.trap_grad(dt * s_lr / 2, gmax, dgdt, dt)[0].shape[1] != tg.trap_grad(dt * float(np.sum(sub)) / 2, gmax, dgdt, dt)[0].shape[1]:
+        return None, "rounding-tie"
+    if g.ndim != 2 or g.shape[0] != 3:
+        return "false", "malformed"
+    inc = np.diff(np.vstack((k, np.zeros((1, 2)))), axis=0)
+    fit = all(tg.trap_grad(v / GAMMA, gmax, dgdt, dt)[0].shape[1] <= nsub for v in np.abs(inc).ravel() if v / GAMMA > 0)
+    N = g.shape[1]
+    idx = {0, 1, N - 1, N - 2}
+    for i in range(n + 1):
+        for d in (-2, -1, 0, 1, 2):
+            if 0 <= i * nsub + d < N:
+                idx.add(i * nsub + d)
+    for _ in range(30):
+        idx.add(rng.randrange(N))
+    def pts(ax):
+        return "[" + "; ".join("(%s, %s)" % (L.z(i), L.flt(g[ax, i])) for i in sorted(idx)) + "]"
+    def sums(ax):
+        out = []
+        for i in range(n):
+            t = 0.0
+            for v in g[ax, i * nsub:(i + 1) * nsub].tolist():
+                t += v
+            out.append(t)
+        t = 0.0
+        for v in g[ax, n * nsub:].tolist():
+            t += v
+        out.append(t)
+        return L.flist(out)
+    atol_s = 1e-12 * gmax * max(nsub, 1)
+    return ("chk_spokes %s %s %s %s %s %s %s %s %s %s %s" % (par, "true" if fit else "false", L.z(N), L.z(nsub), L.flt(atol_s),
+                                                           pts(0), pts(1), pts(2), sums(0), sums(1), sums(2))), \
+        ("returned" if fit else "returned-outside-domain")
 
 
 # ---------------------------------------------------------------- the check
@@ -369,28 +444,61 @@ def run(ctx):
                        "length": int(d["w"].shape[1]), "observed_head": d["w"][0][:8].tolist()},
                       found_input=False, signature=sig)
 
-    # stretch: spokes_grad, oracle only
+    # spokes_grad: oracle on the implementation + correspondence with coq/model/Spokes.v (theorem C20_spokes_grad_meets_limits)
     n_sp, sp_bad, sp_na = ctx.n(40, 600), 0, 0
-    for _ in range(n_sp):
-        c = spokes_case(rng)
+    sp_done = []
+    sp_cases = [spokes_case(rng) for _ in range(n_sp)]
+    # some spoke sets are designed a second time after all the others (anything remembered from one design and handed to a later
+    # one shows in the second result)
+    sp_cases += [dict(c) for c in sp_cases[:ctx.n(10, 100)]]
+    for c in sp_cases:
         try:
             app, bad = spokes_oracle(tg, c)
         except Exception as e:
             app, bad = True, [("exception", "gradients", repr(e))]
         if not app:
             sp_na += 1
-            ctx.count("spokes_grad:blip-longer-than-lobe(not run)", nontrivial=False)
-            continue
-        ctx.count("spokes_grad", key=json.dumps(c, sort_keys=True), nontrivial=len(c["k"]) > 1, sample=c)
+            ctx.count("spokes_grad:blip-longer-than-lobe(outside the domain: rejection or limits + return to origin)", nontrivial=False)
+        else:
+            ctx.count("spokes_grad", key=json.dumps(c, sort_keys=True), nontrivial=len(c["k"]) > 1, sample=c)
         if bad:
-            sp_bad += 1
+            sp_bad += 1 if app else 0       # outside the domain: open known finding, reported through its signature
             sig = "C20:spokes_grad:%s" % bad[0][0].split(" ")[0]
             if sig not in reported:
                 reported.add(sig)
                 ctx.violation("spokes_grad violates %s" % bad[0][0],
                               {"kind": "oracle-spokes", "case": c, "condition": bad[0][0], "expected": bad[0][1],
                                "observed": bad[0][2]}, signature=sig)
-    ctx.obligation("oracle:spokes_grad limits and k-space increments (%d cases)" % (n_sp - sp_na), sp_bad == 0)
+        try:
+            expr, how = spokes_coq_expr(tg, c, rng)
+        except Exception as e:
+            expr, how = "false", "exception:" + type(e).__name__
+        ctx.count("spokes_grad:corr:" + how, nontrivial=False)
+        if expr is not None:
+            sp_done.append(dict(case=c, expr=expr, oracle_bad=bool(bad), how=how))
+    ctx.obligation("oracle:spokes_grad limits and k-space increments (%d cases)" % (len(sp_cases) - sp_na), sp_bad == 0)
+    sp_failing, sp_ok = [], True
+    try:
+        if not ctx.make(["run/RunC20.vo"]):
+            raise RuntimeError("run/RunC20.vo does not build")
+        sp_failing = L.run_bool_cases(ctx, "c20sp", HEADER, sp_done, per_file=8)
+    except RuntimeError as e:
+        sp_ok = False
+        ctx.notes.append("spokes correspondence could not run: %s" % str(e)[:500])
+    ctx.obligation("corr:spokes_grad model==impl (%d cases, %d rejected by both)" %
+                   (len(sp_done), sum(1 for d in sp_done if d["how"] == "raised")), sp_ok and not sp_failing)
+    ctx.coverage["disagreements_model_vs_impl"] += len(sp_failing)
+    if not sp_ok:
+        corr_ok = False
+    for i in sp_failing:
+        d = sp_done[i]
+        if d["oracle_bad"] or any(x.startswith("C20:spokes_grad:") for x in reported):
+            continue
+        reported.add("C20:corr:spokes_grad")
+        failing.append(-1)
+        ctx.violation("model and implementation disagree on spokes_grad (%s; the oracle's conditions hold on this input)" % d["how"],
+                      {"kind": "correspondence", "broken": "corr:spokes_grad", "case": d["case"], "impl": d["how"]},
+                      found_input=False, signature="C20:corr:spokes_grad")
 
     # something broke but no failing input yet: search more widely with the oracle (short waveforms, many draws)
     if (not proof_ok or not corr_ok or failing or tie_broken) and not any(v["found_input"] for v in ctx.violations):
@@ -423,7 +531,9 @@ def run(ctx):
         "integers, flat amplitude at/one ulp around gmax (cap switch), floor(area/a/dt)=0 (F12 region), box corners, the unit test's "
         "parameters; every case is non-trivial (>= 4 samples); distinct = distinct parameter tuples; waveforms up to %d samples are "
         "compared sample by sample in Coq, longer ones on length, ramp count and ~30 indexed samples; spokes_grad: random spoke sets "
-        "(1-6 spokes, zero/repeated increments) oracle only" % (maxlen, FULL_LEN))
+        "(1-6 spokes, zero/repeated increments, grid ties, int / float32 storage, some designed twice): oracle on the implementation and "
+        "the float model of coq/model/Spokes.v compared on length, ~50 indexed samples per axis and every segment sum; spoke sets whose "
+        "blips do not fit are run too (implementation raises <=> model outside blips_fit)" % (maxlen, FULL_LEN))
     ctx.trusted += TRUSTED
     ctx.proved += PROVED
     ctx.validated_only += VALIDATED
@@ -465,7 +575,12 @@ TRUSTED = [
     "rounding of an integer (validated with tolerance 1e-9, see exact-ceil cases)",
 ]
 PROVED = ["C20_trap_grad_meets_limits, C20_trap_grad_regimes, C20_min_trap_grad_meets_limits, C20_ceil_is_ceiling "
-          "(coq/props/Prop_C20.v): all four conditions for ALL positive parameters, all regimes, no partial theorems"]
+          "(coq/props/Prop_C20.v): all four conditions for ALL positive parameters, all regimes, no partial theorems",
+          "C20_spokes_grad_meets_limits: for ALL spoke sets and positive parameters inside the designer's domain (boolean blips_fit: every "
+          "in-plane blip fits inside one slice-select lobe) the three waveforms have equal length, start/end at 0, stay within gmax and "
+          "dgdt*dt on every axis, move k-space by exactly k[i+1]-k[i] per spoke (return to 0 at the end), gz = alternating "
+          "min_trap_grad lobes + minus a half-area trapezoid"]
 VALIDATED = ["floating-point rounding of the designs (area to 1e-9 relative, limits to 1e-9 relative) — oracle on the implementation",
-             "spokes_grad (stretch): limits per axis and k-space increments, oracle only, restricted to spoke sets whose blips fit "
-             "inside the slice-select lobe"]
+             "spokes_grad: hand model coq/model/Spokes.v (no translator twin; tied by the value correspondence of every run and, for "
+             "the designers it calls, by gen/Gen_trap.v); numpy's pairwise np.sum(subgz) vs the model's left-to-right sum (cases where "
+             "the two give refocusing lobes of different length are counted as rounding ties and not compared)"]
